@@ -1,6 +1,6 @@
 """Human-written texts of MANIFEST.json (levels, notes, techniques)."""
 
-HOOK_COMMITS = ["f6e0534", "8b4a7d8"]
+HOOK_COMMITS = ["f6e0534", "8b4a7d8", "2faf472"]
 
 _HIST_NOTE = ("Trusted base: the harness (instrumented TKey/TVal/TH types, hook walk, u128 oracles), rustc, and the read-only verif-hooks walker. "
               "Covers only the generated histories of this run; counts and boundary counters are in the evidence file; non-vacuity floors make a run that missed the relevant situations inconclusive.")
